@@ -3,9 +3,11 @@ package dbgdrv
 import (
 	"encoding/json"
 	"fmt"
+	"hash/fnv"
 	"math/rand"
 	"os"
 	"path/filepath"
+	"sort"
 	"time"
 
 	am "github.com/pancsta/asyncmachine-go/pkg/machine"
@@ -69,6 +71,23 @@ func StreamCase(s *Session, capt *Capture, addr string, r *rand.Rand, label stri
 			cuts[j], cuts[j-1] = cuts[j-1], cuts[j]
 		}
 	}
+	// jumps by transition id go to records the debugger holds AND to records that
+	// are still to come (the source knows an id before the debugger has the
+	// record): refused then, asked again after every later batch
+	idCmd := func(k int) Cmd {
+		if k < 1 || k > len(msgs) {
+			return Cmd{Op: "scrollid", K: 0, Id: label + "-never"}
+		}
+		return Cmd{Op: "scrollid", K: k, Id: msgs[k-1].ID}
+	}
+	insert := func(cmds []Cmd, c Cmd) []Cmd {
+		pos := r.Intn(len(cmds) + 1)
+		cmds = append(cmds, Cmd{})
+		copy(cmds[pos+1:], cmds[pos:])
+		cmds[pos] = c
+		return cmds
+	}
+	var early []int // positions asked for while their record was not held
 	for i := 0; i+1 < len(cuts); i++ {
 		b := msgs[cuts[i]:cuts[i+1]]
 		if len(b) > 0 {
@@ -76,10 +95,35 @@ func StreamCase(s *Session, capt *Capture, addr string, r *rand.Rand, label stri
 				return err
 			}
 		}
-		if cuts[i+1] == 0 {
-			continue
+		held := cuts[i+1]
+		var cmds []Cmd
+		if held > 0 {
+			cmds = RandCmds(r, ncmds, held)
 		}
-		for _, c := range RandCmds(r, ncmds, cuts[i+1]) {
+		for _, k := range early {
+			cmds = insert(cmds, idCmd(k))
+		}
+		still := early[:0]
+		for _, k := range early {
+			if k > held {
+				still = append(still, k)
+			}
+		}
+		early = still
+		if held < len(msgs) && i+2 < len(cuts) {
+			for j := r.Intn(3); j > 0; j-- {
+				k := held + 1 + r.Intn(len(msgs)-held)
+				cmds = insert(cmds, idCmd(k))
+				early = append(early, k)
+			}
+		}
+		if held > 0 && r.Float64() < 0.3 {
+			cmds = insert(cmds, idCmd(1+r.Intn(held)))
+		}
+		if r.Float64() < 0.15 {
+			cmds = insert(cmds, idCmd(0))
+		}
+		for _, c := range cmds {
 			if err := s.Do(c); err != nil {
 				return err
 			}
@@ -266,7 +310,12 @@ func ReplaySeq(s *Session, label string, seq []SeqStep) (mism []string, err erro
 				return nil, err
 			}
 		case "cmd":
-			if err := s.Do(Cmd{Op: st.Cmd.Op, K: st.Cmd.K, Tool: st.Cmd.Tool}); err != nil {
+			c := Cmd{Op: st.Cmd.Op, K: st.Cmd.K, Tool: st.Cmd.Tool}
+			if c.Op == "scrollid" {
+				// the id the K-th record of this stream has / will have (KindGen.Next)
+				c.Id = fmt.Sprintf("k%d", c.K-1)
+			}
+			if err := s.Do(c); err != nil {
 				return nil, err
 			}
 		}
@@ -409,4 +458,348 @@ func TmpDir(tmp, pfx string) (string, error) {
 		return "", err
 	}
 	return filepath.Join(d), nil
+}
+
+// ---------------------------------------------------------------------------
+// (b') function level: a store that GROWS between two look-ups of the same key
+
+// TxSeqCase builds ONE server.Client whose record list grows step by step (as
+// ClientMsg appends to it) and queries the real look-ups in between: every
+// transition id is asked for before its record is appended, after it, and
+// again (answered from the cache); ids that never arrive; ClearCache (the GC
+// handler) now and then; TxAtQueueTick / TxAtMachTime with the same argument
+// before and after a growth.  steps: [0, n, 0] grown to n records, [1, key,
+// answer] TxIndex(keys[key]), [2, 0, 0] ClearCache, [3, q, answer]
+// TxAtQueueTick(q), [4, sum, answer] TxAtMachTime(sum).
+func TxSeqCase(r *rand.Rand, n int) map[string]any {
+	c := &server.Client{Exportable: &server.Exportable{}}
+	ids, qts, sums := []string{}, []uint64{}, []uint64{}
+	var qt, sum uint64 = 1, 0
+	t := time.Unix(1_700_000_000, 0)
+	var msgs []*dbg.DbgMsgTx
+	for i := 0; i < n; i++ {
+		if r.Float64() < 0.5 {
+			qt += uint64(1 + r.Intn(2))
+		}
+		sum += uint64(r.Intn(3))
+		t = t.Add(10 * time.Nanosecond)
+		tt := t
+		id := fmt.Sprintf("x%d", i)
+		msgs = append(msgs, &dbg.DbgMsgTx{ID: id, QueueTick: qt, Time: &tt})
+		ids, qts, sums = append(ids, id), append(qts, qt), append(sums, sum)
+	}
+	keys := append(append([]string{}, ids...), "never-1", "never-2")
+	steps := [][3]int64{}
+	held := 0
+	grow := func(to int) {
+		for ; held < to; held++ {
+			c.MsgTxs = append(c.MsgTxs, msgs[held])
+			c.MsgTxsParsed = append(c.MsgTxsParsed, &types.MsgTxParsed{TimeSum: sums[held]})
+		}
+		steps = append(steps, [3]int64{0, int64(to), 0})
+	}
+	type q struct {
+		kind int
+		arg  int64
+	}
+	ask := func(x q) {
+		var res int
+		switch x.kind {
+		case 1:
+			res = c.TxIndex(keys[x.arg])
+		case 3:
+			res = c.TxAtQueueTick(uint64(x.arg))
+		case 4:
+			res = c.TxAtMachTime(uint64(x.arg))
+		}
+		steps = append(steps, [3]int64{int64(x.kind), x.arg, int64(res)})
+	}
+	randQ := func() q {
+		switch x := r.Float64(); {
+		case x < 0.7:
+			return q{1, int64(r.Intn(len(keys)))}
+		case x < 0.85:
+			return q{3, int64(r.Intn(int(qt) + 2))}
+		}
+		return q{4, int64(r.Intn(int(sum) + 2))}
+	}
+	var prev []q
+	for {
+		// what was asked before the last growth is asked again, plus new questions
+		now := append([]q{}, prev...)
+		for j := 1 + r.Intn(4); j > 0; j-- {
+			now = append(now, randQ())
+		}
+		r.Shuffle(len(now), func(i, j int) { now[i], now[j] = now[j], now[i] })
+		for _, x := range now {
+			ask(x)
+		}
+		if len(now) > 6 {
+			now = now[:6]
+		}
+		prev = now
+		if r.Float64() < 0.12 {
+			c.ClearCache()
+			steps = append(steps, [3]int64{2, 0, 0})
+		}
+		if held == n {
+			break
+		}
+		to := held + 1 + r.Intn(3)
+		if to > n {
+			to = n
+		}
+		grow(to)
+	}
+	// everything once more, twice (the second round is answered from the cache)
+	for round := 0; round < 2; round++ {
+		for k := range keys {
+			ask(q{1, int64(k)})
+		}
+	}
+	return map[string]any{"ev": "txseq", "ids": ids, "keys": keys, "qts": qts, "sums": sums, "steps": steps}
+}
+
+// ---------------------------------------------------------------------------
+// (d) the filter matrix: every kind of record x every reachable set of filters
+
+// FlagRec is one record by its flags (spec: MCDebugger FRec / FFlags).
+type FlagRec struct {
+	Auto, Queued, Acc, Check bool
+	Var                      string // "" | "em" (changes no tick) | "he" (calls Healthcheck)
+}
+
+// AllFlagRecs: auto x queued x canceled x check, plus the empty and the health
+// transition.
+func AllFlagRecs() []FlagRec {
+	var out []FlagRec
+	for i := 0; i < 16; i++ {
+		out = append(out, FlagRec{Auto: i&1 != 0, Queued: i&2 != 0, Acc: i&4 != 0, Check: i&8 != 0})
+	}
+	return append(out, FlagRec{Acc: true, Var: "em"}, FlagRec{Acc: true, Var: "he"})
+}
+
+// NextFlags mirrors FRec: a queued auto mutation takes a new token, a
+// non-queued auto record carries the latest token (executes it); a queued
+// manual mutation names the next queue tick, a non-queued manual transition
+// advances the queue tick (executes it).
+func (g *KindGen) NextFlags(f FlagRec) *dbg.DbgMsgTx {
+	m := &dbg.DbgMsgTx{MachineID: g.id, ID: fmt.Sprintf("k%d", g.n), Accepted: f.Acc, Type: am.MutationAdd,
+		IsAuto: f.Auto, IsQueued: f.Queued, IsCheck: f.Check, CalledStatesIdxs: []int{0}}
+	called := 0
+	if f.Var == "he" {
+		called = 2
+	} else if f.Auto {
+		called = 1
+	}
+	m.CalledStatesIdxs = []int{called}
+	if f.Auto {
+		if f.Queued {
+			g.ntok++
+		}
+		m.MutQueueToken = g.ntok
+	}
+	if f.Queued && !f.Auto {
+		m.MutQueueTick = g.qt + 1
+	}
+	if !f.Queued && !f.Auto && !f.Check {
+		g.qt++
+	}
+	m.QueueTick = g.qt
+	if f.Acc && !f.Queued && !f.Check && f.Var != "em" {
+		g.clocks[called]++
+	}
+	m.Clocks = append(am.Time{}, g.clocks...)
+	g.n++
+	g.t = g.t.Add(10 * time.Nanosecond)
+	tt := g.t
+	m.Time = &tt
+	return m
+}
+
+var matrixTools = []string{"auto", "canceled", "queued", "empty", "health", "outgroup", "checks"}
+
+var toolState = map[string]string{"canceled": ss.FilterCanceledTx, "queued": ss.FilterQueuedTx,
+	"empty": ss.FilterEmptyTx, "health": ss.FilterHealth, "outgroup": ss.FilterOutGroup, "checks": ss.FilterChecks}
+
+func fkey(f map[string]bool) string {
+	k := ""
+	for _, n := range filterStates {
+		if f[n] {
+			k += "1"
+		} else {
+			k += "0"
+		}
+	}
+	return k
+}
+
+// toggled is the driver's PLAN of what a filter tool does (only used to pick
+// the next tool; the states the real debugger ends up with are what is logged
+// and visited).
+func toggled(f map[string]bool, tool string) map[string]bool {
+	g := map[string]bool{}
+	for k, v := range f {
+		g[k] = v
+	}
+	if tool == "auto" {
+		switch {
+		case f[ss.FilterAutoTx]:
+			g[ss.FilterAutoTx], g[ss.FilterAutoCanceledTx] = false, true
+		case f[ss.FilterAutoCanceledTx]:
+			g[ss.FilterAutoCanceledTx] = false
+		default:
+			g[ss.FilterAutoTx] = true
+		}
+		return g
+	}
+	st := toolState[tool]
+	g[st] = !f[st]
+	if (tool == "canceled" || tool == "queued") && f[st] {
+		g[ss.FilterEmptyTx] = false
+	}
+	return g
+}
+
+// nextTool: a tool that leads to a set of filters not visited yet, else the
+// first step of a shortest planned path to one; "" when every planned set is
+// visited.
+func nextTool(r *rand.Rand, cur map[string]bool, visited map[string]bool, want func(string) bool) string {
+	type node struct {
+		f     map[string]bool
+		first string
+	}
+	seen := map[string]bool{fkey(cur): true}
+	queue := []node{{cur, ""}}
+	for len(queue) > 0 {
+		x := queue[0]
+		queue = queue[1:]
+		for _, i := range r.Perm(len(matrixTools)) {
+			t := matrixTools[i]
+			g := toggled(x.f, t)
+			k := fkey(g)
+			if seen[k] {
+				continue
+			}
+			seen[k] = true
+			first := x.first
+			if first == "" {
+				first = t
+			}
+			if !visited[k] && want(k) {
+				return first
+			}
+			queue = append(queue, node{g, first})
+		}
+	}
+	return ""
+}
+
+// FilterMatrixCase: one client whose stream holds every kind of record (in a
+// seeded order, with seeded repetitions, then queued mutations with every kind
+// of executor; ingested in 1..3 batches), then a walk
+// of filter-tool toggles through EVERY reachable set of filter states of this
+// case's share (the sets are dealt to `parts` cases by a hash; parts = 1: all of
+// them; at most maxSteps toggles), with cursor commands in between.  Returns
+// the distinct filter sets the real debugger was in.
+func FilterMatrixCase(s *Session, r *rand.Rand, label string, extra, maxSteps, parts, part int) (map[string]bool, error) {
+	visited := map[string]bool{}
+	err := filterMatrixCase(s, r, label, extra, maxSteps, parts, part, visited)
+	return visited, err
+}
+
+func filterMatrixCase(s *Session, r *rand.Rand, label string, extra, maxSteps, parts, part int, visited map[string]bool) error {
+	want := func(k string) bool {
+		h := fnv.New32a()
+		h.Write([]byte(k))
+		return parts <= 1 || int(h.Sum32()%uint32(parts)) == part
+	}
+	if err := s.Open(label, kindSchema(label)); err != nil {
+		return err
+	}
+	flags := AllFlagRecs()
+	for i := 0; i < extra; i++ {
+		flags = append(flags, flags[r.Intn(18)])
+	}
+	r.Shuffle(len(flags), func(i, j int) { flags[i], flags[j] = flags[j], flags[i] })
+	// whatever the order above links: at the end a queued auto mutation executed by
+	// an accepted / by a canceled auto transition / by nothing, and the same for a
+	// queued manual mutation
+	qa, qu := FlagRec{Auto: true, Queued: true, Acc: true}, FlagRec{Queued: true, Acc: true}
+	tail := [][]FlagRec{{qa, {Auto: true, Acc: true}}, {qa, {Auto: true}}, {qu, {Acc: true}}, {qu, {}}}
+	r.Shuffle(len(tail), func(i, j int) { tail[i], tail[j] = tail[j], tail[i] })
+	for _, t := range tail {
+		flags = append(flags, t...)
+	}
+	flags = append(flags, qu, qa)
+	g := NewKindGen(label)
+	var msgs []*dbg.DbgMsgTx
+	for _, f := range flags {
+		msgs = append(msgs, g.NextFlags(f))
+	}
+	cur := func() map[string]bool {
+		f := map[string]bool{}
+		if s.lastView != nil {
+			for _, n := range s.lastView.Filters {
+				f[n] = true
+			}
+		}
+		return f
+	}
+	cursorCmd := func(held int) Cmd {
+		switch x := r.Float64(); {
+		case x < 0.5:
+			return Cmd{Op: "scroll", K: 1 + r.Intn(held)}
+		case x < 0.65:
+			return Cmd{Op: "tail"}
+		case x < 0.85:
+			return Cmd{Op: "fwd", K: 1}
+		}
+		return Cmd{Op: "back", K: 1}
+	}
+	nb := 1 + r.Intn(3)
+	cuts := []int{0}
+	for i := 1; i < nb; i++ {
+		cuts = append(cuts, 1+r.Intn(len(msgs)-1))
+	}
+	cuts = append(cuts, len(msgs))
+	sort.Ints(cuts)
+	for i := 0; i+1 < len(cuts); i++ {
+		if cuts[i+1] == cuts[i] {
+			continue
+		}
+		if err := s.Ingest(msgs[cuts[i]:cuts[i+1]]); err != nil {
+			return err
+		}
+		visited[fkey(cur())] = true
+		if cuts[i+1] == len(msgs) {
+			break
+		}
+		// a few toggles between the batches: later records are judged one by one
+		for j := 0; j < 5; j++ {
+			if err := s.Do(Cmd{Op: "toggle", Tool: matrixTools[r.Intn(len(matrixTools))]}); err != nil {
+				return err
+			}
+			visited[fkey(cur())] = true
+		}
+		if err := s.Do(cursorCmd(cuts[i+1])); err != nil {
+			return err
+		}
+	}
+	for step := 0; step < maxSteps; step++ {
+		t := nextTool(r, cur(), visited, want)
+		if t == "" {
+			break
+		}
+		if err := s.Do(Cmd{Op: "toggle", Tool: t}); err != nil {
+			return err
+		}
+		visited[fkey(cur())] = true
+		if step%5 == 4 {
+			if err := s.Do(cursorCmd(len(msgs))); err != nil {
+				return err
+			}
+		}
+	}
+	return s.Final(label, "kinds", nil, true)
 }
